@@ -497,6 +497,8 @@ def run(ctx, rep):
     rule_trim(ctx, rep)
     from rules import c09_scale
     c09_scale.run(ctx, rep)
+    from rules import c03_errdrop
+    c03_errdrop.run(ctx, rep, rid="R-C09-errdrop")
     # arithmetic/panicking constructors on literal paths are shared with C04 (R-C04-panic): report the literal subset here too
     from rules.c04 import ENTRIES, entry_bodies
     from rules.panic_triage import TRIAGE
